@@ -432,9 +432,10 @@ def judge_batch(ctx, inputs, label, watchdog_ms=20000, reproduce=True):
             obs2 = drive(ctx, sub[:3] if key[6] else sub, wd)
             bad2 = dict(vlib.validate(ctx, "Trace_Totality", obs2, stateless=True, shards=1))
             confirmed = [(take[j][0], bad2[j], obs2[j]) for j in range(len(obs2)) if j in bad2]
-            if not confirmed:
-                raise vlib.Infra("%s: %d rejected %s calls did not reproduce (first: %s)" % (
+            if not confirmed:       # not a verdict: reported as an infrastructure problem at the end unless real violations exist
+                ctx.extra.setdefault("unreproduced", []).append("%s: %d rejected %s calls did not reproduce (first: %s)" % (
                     label, len(items), key[:2], json.dumps(sub[0])[:300]))
+                continue
         else:
             confirmed = [(gi, ent, obs[gi]) for gi, ent in take]
         if len(items) > len(take):
@@ -498,6 +499,11 @@ def run(ctx):
                 ctx.sample(dict(kind="fuzz call returning %s" % want, event=sample_of(o)), cap=8)
                 break
     ctx.exhaustive = False
+    unrep = ctx.extra.get("unreproduced", [])
+    for u in unrep:
+        ctx.note("NOT REPRODUCED (no verdict from these calls): " + u)
+    if unrep and not ctx.rejected:
+        raise vlib.Infra("; ".join(unrep))
     return vlib.finish(
         ctx,
         rule="one case = one call of a real reader / decoder / parser with a distinct input (op, API, arguments, hints); "
